@@ -2313,8 +2313,9 @@ class _Project:
             postprocessor_result = self.postprocess()
 
             static_files: Dict[str, Union[str, bytes]] = {
+                # The inventory header holds the project name on one line
                 "objects.inv": self.targets.generate_inventory("").dumps(
-                    self.config.name, ""
+                    " ".join(self.config.name.splitlines()), ""
                 )
             }
 
